@@ -165,15 +165,19 @@ def run_quat(ctx, p):
     sig = dict(api=api, shortest=shortest, start=bool(with_start), dot='neg' if dot < 0 else 'pos')
     what = lambda: '%s(q0=%s, q1=%s, shortest=%s)' % (api, q0, q1, shortest)
     # the option as a caller may hold it: Python bool, NumPy bool (the result of a comparison), 0 / 1
-    SH = {'bool': bool, 'np.bool_': np.bool_, 'int': int}[p.get('shform', 'bool')](shortest)
-    if p.get('shform', 'bool') != 'bool':
-        sig['shform'] = p['shform']
+    shform = p.get('shform', 'bool')
+    if shform == 'omitted' and shortest:
+        shform = 'bool'        # (leaving the option out means the documented default, shortest=False)
+    SH = {'bool': bool, 'np.bool_': np.bool_, 'int': int, 'omitted': bool}[shform](shortest)
+    if shform != 'bool':
+        sig['shform'] = shform
+    KW = {} if shform == 'omitted' else {'shortest': SH}
 
     def call(s):
         if api == 'base.slerp':
-            return base.slerp(q0, q1, s, shortest=SH)
+            return base.slerp(q0, q1, s, **KW)
         a, b = sm.UnitQuaternion(q0), sm.UnitQuaternion(q1)
-        r = a.interp(s, dest=b, shortest=SH) if with_start else b.interp(s, shortest=SH)
+        r = a.interp(s, dest=b, **KW) if with_start else b.interp(s, **KW)
         return r.A
     samples = []
     for s in p['svals']:
@@ -386,7 +390,7 @@ def run(ctx):
         ws = rng.random() < 0.7
         if not ws:
             q1 = dq if rng.random() < 0.5 else -dq
-        p = dict(api=['base.slerp', 'UnitQuaternion.interp'][rng.integers(2)], q0=q0, q1=q1, shortest=bool(rng.integers(2)), shform=['bool', 'bool', 'np.bool_', 'int'][rng.integers(4)],
+        p = dict(api=['base.slerp', 'UnitQuaternion.interp'][rng.integers(2)], q0=q0, q1=q1, shortest=bool(rng.integers(2)), shform=['bool', 'bool', 'np.bool_', 'int', 'omitted'][rng.integers(5)],
                  with_start=ws, svals=svals(rng), bad_s=[BAD_S[rng.integers(len(BAD_S))]])
         if p['api'] == 'base.slerp':
             p['with_start'] = True
